@@ -120,3 +120,10 @@ Example ex_slot :
   let st := fold_left (hstep toy_md5 toy_rx ex_cfg) ex_ops1 (init_state 1 1) in
   slot_of st 0 0 = Some 0%nat /\ (exists r, get_rq st 0 = Some r /\ rq_to r = Some 0%nat /\ rq_newid r = 0).
 Proof. vm_compute. split; [reflexivity|]. eexists. repeat split; reflexivity. Qed.
+
+(* C17_client_gone_releases_its_requests is not vacuous: in the state after the reply was queued (object 0 referred to
+   by client 0's cache and reply queue, rq_from = client 0) the client goes, and the object is released *)
+Example ex_client_gone :
+  let st := fold_left (hstep toy_md5 toy_rx ex_cfg) ex_ops2 (init_state 1 1) in
+  (exists r, get_rq st 0 = Some r /\ rq_from r = Some 0%nat) /\ get_rq (removeclient st 0) 0 = None.
+Proof. vm_compute. split; [eexists; split; reflexivity | reflexivity]. Qed.
